@@ -44,8 +44,8 @@ def check_eq_through_getitem(ctx, rule, rel, cls, eq):
                    and x.attr not in ("_name",)
                    for x in ast.walk(n))]
     via = [n for n in walk_local(eq) if isinstance(n, ast.Compare)
-           and isinstance(n.left, ast.Subscript) and isinstance(n.left.value, ast.Name)
-           and n.left.value.id == "self"]
+           and any(isinstance(x, ast.Subscript) and isinstance(x.value, ast.Name) and x.value.id == "self"
+                   for x in [n.left] + list(n.comparators))]
     ctx.ob(rule, rel, f"{cls}.__eq__", "elements compared via self[key]",
            bool(via) and not raw,
            f"{cls}.__eq__ compares the raw backing store: a container whose elements are still "
